@@ -202,7 +202,12 @@ fn search_cases(out: &mut Out, t: &Tagged, hist: &[Board], kvals: &[u64]) {
     for &k in kvals {
         let mut res: Option<(String, String)> = None;
         out.case(t.tag, true, format!("search {p} hist={h} k={k} prev=65535"), || {
-            let o = run_search(&b, hist, k);
+            let mut o = run_search(&b, hist, k);
+            // callers outside the crate (the plugin, the referee) see the result through the stable-interface value
+            // `EvaluatedMove`: encode and decode it the way they do before judging it
+            let em = chess_api::EvaluatedMove::new(o.mv, o.score);
+            o.mv = em.chess_move();
+            o.score = em.score();
             // the first deepening pass finished before the limit if a completed pass was recorded, or if the
             // timeout never reported expiry at all (then every pass the search ran was complete)
             let first_pass = o.max_depth != u16::MAX || o.polls <= k;
@@ -369,6 +374,117 @@ pub fn gen_ep_only_reply(n: usize, seed: u64, path: &str) {
     std::fs::write(path, text).unwrap();
     std::fs::write(format!("{path}.after"), after.join("\n") + "\n").unwrap();
     eprintln!("{} positions after {} tries", found.len(), tries);
+}
+
+/// one-off corpus builder (run on the tree the corpus is committed for, not during a check):
+/// `harness gen-lines <per-class> <seed> <outfile>` searches random sparse positions for two-move lines that end in one
+/// of the rare situations below and writes them as `FEN ; m1 m2`.  During a check the lines are replayed from the file
+/// (`positions()`), so every position stream meets them whatever the implementation under test believes.
+pub fn gen_lines(per_class: usize, seed: u64, path: &str) {
+    use chess_bitboard::Piece;
+    let mut rng = Rng::new(seed ^ 0x11E5);
+    let names = ["king-takes-home-rook-with-right", "double-check-and-pin", "castling-gives-check", "en-passant-gives-check",
+        "promotion-double-check", "knight-promotion-check", "three-pins", "en-passant-while-in-check", "capture-of-home-rook-by-piece"];
+    let mut found: Vec<Vec<String>> = vec![Vec::new(); names.len()];
+    let mut tries = 0u64;
+    while found.iter().any(|v| v.len() < per_class) && tries < 3_000_000 {
+        tries += 1;
+        let mut sq = [b'.'; 64];
+        let mut rights = 0u8;
+        // kings: at home with rooks and rights quite often
+        let (mut wk, mut bk) = (rng.below(64) as usize, rng.below(64) as usize);
+        if rng.chance(1, 2) {
+            bk = 60;
+            if rng.chance(2, 3) {
+                sq[56] = b'r';
+                rights |= 8;
+            }
+            if rng.chance(2, 3) {
+                sq[63] = b'r';
+                rights |= 4;
+            }
+        }
+        if rng.chance(1, 2) {
+            wk = 4;
+            if rng.chance(2, 3) {
+                sq[0] = b'R';
+                rights |= 2;
+            }
+            if rng.chance(2, 3) {
+                sq[7] = b'R';
+                rights |= 1;
+            }
+        }
+        if wk == bk || sq[wk] != b'.' || sq[bk] != b'.' {
+            continue;
+        }
+        sq[wk] = b'K';
+        sq[bk] = b'k';
+        for _ in 0..(2 + rng.below(9)) {
+            let c = *rng.pick(&b"QRRBBNNPPPqrrbbnnppp"[..]);
+            let i = rng.below(64) as usize;
+            if sq[i] == b'.' && !((c == b'P' || c == b'p') && (i / 8 == 0 || i / 8 == 7)) {
+                sq[i] = c;
+            }
+        }
+        let white = rng.chance(1, 2);
+        let fen = fen_of(&sq, white, rights, None, rng.below(30) as u32, 1 + rng.below(40) as u32);
+        let Ok(b) = chess_movegen::fen::parse_fen(fen.as_bytes()) else { continue };
+        for m1 in b.legals() {
+            let Some(b1) = b.move_new(m1) else { continue };
+            for m2 in b1.legals() {
+                let Some(b2) = b1.move_new(m2) else { continue };
+                let v1 = view(&b1);
+                let v2 = view(&b2);
+                let mover = b1.raw().get(m2.source).map(|x| x.1);
+                let victim = b1.raw().get(m2.dest).map(|x| x.1);
+                let quiet = victim.is_none();
+                let (sf, df) = (m2.source.to_u8() % 8, m2.dest.to_u8() % 8);
+                let is_ep = mover == Some(Piece::Pawn) && quiet && sf != df;
+                let is_castle = mover == Some(Piece::King) && (sf as i32 - df as i32).abs() == 2;
+                let corner = [0u8, 7, 56, 63].contains(&m2.dest.to_u8());
+                let right_bit = match m2.dest.to_u8() { 0 => 2u8, 7 => 1, 56 => 8, _ => 4 };
+                let held = corner && v1.rights & right_bit != 0 && victim == Some(Piece::Rook);
+                let nchk = (v2.checkers | (v2.checkers & v2.pinned)).count_ones();
+                let class = if held && mover == Some(Piece::King) {
+                    Some(0)
+                } else if nchk == 2 && v2.pinned != 0 && m2.piece.is_none() {
+                    Some(1)
+                } else if is_castle && b2.in_check() {
+                    Some(2)
+                } else if is_ep && b1.in_check() {
+                    Some(7)
+                } else if is_ep && b2.in_check() {
+                    Some(3)
+                } else if m2.piece.is_some() && nchk == 2 {
+                    Some(4)
+                } else if m2.piece == Some(chess_bitboard::PromotionPiece::Knight) && b2.in_check() {
+                    Some(5)
+                } else if v2.pinned.count_ones() >= 3 {
+                    Some(6)
+                } else if held {
+                    Some(8)
+                } else {
+                    None
+                };
+                if let Some(c) = class {
+                    if found[c].len() < per_class && !found[c].iter().any(|l| l.starts_with(&fen)) {
+                        found[c].push(format!("{fen} ; {} {}", mv_str(m1), mv_str(m2)));
+                    }
+                }
+            }
+        }
+    }
+    let mut text = String::from("# two-move lines from sparse positions that end in a rare situation (found by `harness gen-lines`, see harness/src/engine.rs);\n# format: FEN ; move move\n");
+    for (i, v) in found.iter().enumerate() {
+        text.push_str(&format!("# {} ({})\n", names[i], v.len()));
+        for l in v {
+            text.push_str(l);
+            text.push('\n');
+        }
+    }
+    std::fs::write(path, text).unwrap();
+    eprintln!("{:?} after {tries} tries", found.iter().map(|v| v.len()).collect::<Vec<_>>());
 }
 
 pub fn load_ep_only_reply() -> Vec<String> {
